@@ -35,7 +35,8 @@ PREFIXES = [("ex", "http://ex.org/"), ("ns", "http://ex.org/ns/"), ("xsd", XSD),
             ("rdf", RDF), ("", "http://empty.org/")]
 BASE = "http://base.org/b/"
 IRIS = ["http://ex.org/s1", "http://ex.org/s2", "http://ex.org/ns/o1", "http://empty.org/e1", BASE + "rel1", BASE + "rel2",
-        "http://other.org/v#frag", "http://ex.org/C", "http://ex.org/ns/D"]
+        "http://other.org/v#frag", "http://ex.org/C", "http://ex.org/ns/D", "http://ex.org/a.b", "http://ex.org/a-b_1",
+        "http://ex.org/ns/x.y-z", "http://ex.org/caf\u00e9"]
 PREDS = ["http://ex.org/p1", "http://ex.org/ns/p2", RDF_TYPE, BASE + "relp", "http://other.org/v#q"]
 BNODES = ["_:b1", "_:b2", "_:x_1"]
 PIECES = ["a", "b c", "#", " # x", ";", " ; ", ",", " , ", ".", " . ", '\\"', "\\\\", "'", "@", "^^", "<", ">", "é", "\\n", "xsd:", "1", "\u2028", "\u0085"]
@@ -67,7 +68,7 @@ def render_iri(iri, ch, declared, use_base, position):
     for p, ns in PREFIXES:
         if p in declared and iri.startswith(ns):
             loc = iri[len(ns):]
-            if loc and all(c.isalnum() or c == "_" for c in loc):
+            if loc and all(c.isalnum() or c in "_-." for c in loc) and loc[0] not in "-." and loc[-1] != ".":
                 forms.append("pref:" + p)
     if use_base and iri.startswith(BASE):
         forms.append("rel")
@@ -176,14 +177,21 @@ def build(case):
                     labels.add("comment")
             text += sep + tk
         c = cm.pick(8)
+        joiner = "\n"
         if c == 0:
             text += " " + COMMENTS[cm.pick(len(COMMENTS))]
             labels.add("comment")
             labels.add("trailing-comment")
         elif c == 1:
             text += "\n"
-        body += text + "\n"
-    doc = "\n".join(lines_out) + "\n" + body
+        elif c == 2:
+            joiner = " "            # the next statement starts on the same line
+            labels.add("two-statements-on-a-line")
+        elif c == 3:
+            joiner = "\r\n"
+            labels.add("crlf")
+        body += text + joiner
+    doc = "\n".join(lines_out) + "\n" + body + ("" if body.endswith("\n") else "\n")
     if any(o[0] == "lit" and any(pc in SPECIAL_PIECES for pc in o[3]) for s, p, o in triples):
         labels.add("special-literal")
     if any(o[0] == "lit" and DTYPES[o[2]][0].startswith("@") for s, p, o in triples):
